@@ -352,11 +352,106 @@ fn write_buffer_races(rep: &Reporter, thorough: bool) -> (u64, u64, bool) {
     (execs, outcomes.len() as u64, exhaustive)
 }
 
+// ---------------------------------------------------------------------------------------------
+// the whole wiring: node -> delta sink -> bridge task -> persistence actor -> store; shutdown; recovery into a new node
+// ---------------------------------------------------------------------------------------------
+
+/// What the node is asked to do before the graceful shutdown (keys k0.. are distinct unless said otherwise).
+const WIRING_WORKLOADS: &[(&str, usize)] = &[
+    ("distinct-sets", 1), ("distinct-sets", 2), ("distinct-sets", 9), ("distinct-sets", 10), ("distinct-sets", 11), ("distinct-sets", 25),
+    ("distinct-sets", 99), ("distinct-sets", 100), ("distinct-sets", 101), ("distinct-sets", 257), ("distinct-sets", 1000),
+    ("overwrites", 30), ("set-del-hset-mix", 40), ("counters", 35),
+];
+
+fn wiring_commands(kind: &str, n: usize) -> Vec<String> {
+    (0..n)
+        .map(|i| match kind {
+            "distinct-sets" => format!("SET k{i} v{i}"),
+            "overwrites" => format!("SET k{} v{i}", i % 4),
+            "counters" => format!("INCRBY n{} {}", i % 3, i + 1),
+            _ => match i % 5 {
+                0 => format!("SET k{} v{i}", i % 7),
+                1 => format!("HSET h{} f{} x{i}", i % 3, i % 4),
+                2 => format!("DEL k{}", (i + 3) % 7),
+                3 => format!("HDEL h{} f{}", i % 3, (i + 1) % 4),
+                _ => format!("APPEND k{} z", i % 7),
+            },
+        })
+        .collect()
+}
+
+/// Err((signature, detail)) when the node rebuilt from the store after a graceful shutdown does not hold (or serve)
+/// what the first node held.
+fn wiring_case(kind: &str, n: usize, max_deltas: usize, flush_interval_ms: u64) -> Result<u64, (String, String)> {
+    use redis_sim::production::ReplicatedShardedState;
+    use redis_sim::replication::ReplicationConfig;
+    use redis_sim::streaming::{StreamingConfig, StreamingIntegration};
+    let rt = tokio::runtime::Builder::new_current_thread().enable_time().start_paused(true).build().unwrap();
+    rt.block_on(async {
+        let store = Arc::new(VObjStore::new());
+        let mut cfg = StreamingConfig::test();
+        cfg.prefix = PREFIX.to_string();
+        cfg.write_buffer.max_deltas = max_deltas;
+        cfg.write_buffer.flush_interval = Duration::from_millis(flush_interval_ms);
+        cfg.compaction.max_segments = 0; // the compaction worker is C13's subject
+        let desc = format!("{n} commands ({kind}) through the delta sink, write buffer max_deltas={max_deltas} flush_interval={flush_interval_ms}ms, graceful shutdown, recovery into a new node");
+        let repl = ReplicationConfig { enabled: true, replica_id: 1, ..Default::default() };
+        let integ = StreamingIntegration::with_store(store.clone(), cfg.clone(), 1);
+        let mut node = ReplicatedShardedState::new(repl.clone());
+        let (handles, sender) = integ.start_workers().await.map_err(|e| ("wiring: start_workers failed".to_string(), format!("{desc}: {e}")))?;
+        node.set_delta_sink(sender);
+        for c in wiring_commands(kind, n) {
+            let cmd = vh::resp::parse(&vh::resp::line(&c)).expect("workload parses");
+            let _ = node.execute(cmd).await;
+            // let the bridge and the actor run now and then, as they would next to a stream of commands
+            tokio::task::yield_now().await;
+        }
+        let want: std::collections::BTreeMap<String, String> = node.snapshot_state().await.iter().map(|(k, v)| (k.clone(), vh::persist_kit::project(v))).collect();
+        node.clear_delta_sink();
+        handles.shutdown().await;
+        // a new process: new node, recovery through the same integration object API
+        let node2 = ReplicatedShardedState::new(repl);
+        let integ2 = StreamingIntegration::with_store(store.clone(), cfg, 1);
+        integ2.recover(&node2).await.map_err(|e| ("wiring: recovery failed".to_string(), format!("{desc}: {e}")))?;
+        let got: std::collections::BTreeMap<String, String> = node2.snapshot_state().await.iter().map(|(k, v)| (k.clone(), vh::persist_kit::project(v))).collect();
+        if got != want {
+            let k = want.keys().chain(got.keys()).find(|k| want.get(*k) != got.get(*k)).unwrap();
+            let missing = want.keys().filter(|k| !got.contains_key(*k)).count();
+            return Err((
+                format!("wiring: state-after-restart!=state-before-shutdown {}", if missing > 0 { "keys-missing" } else { "values-differ" }),
+                format!("{desc}: key {k}: before the shutdown the node held {:?}, the recovered node holds {:?} ({missing} of {} keys missing; {} store operations)", want.get(k), got.get(k), want.len(), store.log_len()),
+            ));
+        }
+        // what clients read must agree too
+        for k in want.keys().take(12) {
+            let cmd = |c: &str| vh::resp::parse(&vh::resp::line(&format!("{c} {k}"))).unwrap();
+            let (t1, t2) = (node.execute(cmd("TYPE")).await, node2.execute(cmd("TYPE")).await);
+            if vh::resp::show(&t1) != vh::resp::show(&t2) {
+                return Err(("wiring: reads-after-restart-differ".to_string(), format!("{desc}: TYPE {k} was {} and is {} after the restart", vh::resp::show(&t1), vh::resp::show(&t2))));
+            }
+        }
+        Ok(store.log_len() as u64)
+    })
+}
+
 fn main() {
     let args = cli::parse_args();
     vh::quiet_panics();
     if let Some(path) = &args.replay {
         let r = vh::report::load_replay(path);
+        if r["wiring"] == json!(true) {
+            match wiring_case(r["kind"].as_str().unwrap(), r["n"].as_u64().unwrap() as usize, r["max_deltas"].as_u64().unwrap() as usize, r["flush_interval_ms"].as_u64().unwrap()) {
+                Err((sig, detail)) => {
+                    println!("{detail}");
+                    println!("VIOLATION property=C12 replay={} ({sig})", path.display());
+                    std::process::exit(1);
+                }
+                Ok(_) => {
+                    println!("replay: no violation");
+                    std::process::exit(0);
+                }
+            }
+        }
         if r["wb_race"] == json!(true) {
             let prog = r["program"].as_u64().unwrap() as usize;
             let fault = if r["fault"].is_null() { None } else { Some((r["fault"][0].as_u64().unwrap() as usize, if r["fault"][1] == "fail" { ObjFault::Fail } else { ObjFault::TruncatedPut })) };
@@ -467,6 +562,26 @@ fn main() {
     });
     let wb = write_buffer_cases(&rep);
     let (wb_race_execs, wb_race_outcomes, wb_race_exhaustive) = write_buffer_races(&rep, thorough);
+    // the whole wiring
+    let wiring_items: Vec<(usize, usize, u64)> = (0..WIRING_WORKLOADS.len()).flat_map(|w| [(w, 10usize, 0u64), (w, 10, 3_600_000), (w, 100, 3_600_000), (w, 100_000, 3_600_000)]).collect();
+    let wiring_ops = AtomicU64::new(0);
+    {
+        let seen = std::sync::Mutex::new(BTreeSet::new());
+        par::par_map(&wiring_items, |_, (w, md, fi)| {
+            let (kind, n) = WIRING_WORKLOADS[*w];
+            match std::panic::catch_unwind(|| wiring_case(kind, n, *md, *fi)) {
+                Ok(Ok(ops)) => {
+                    wiring_ops.fetch_add(ops, Ordering::Relaxed);
+                }
+                Ok(Err((sig, detail))) => {
+                    if seen.lock().unwrap().insert(sig.clone()) {
+                        rep.violation(sig, detail, json!({"wiring": true, "kind": kind, "n": n, "max_deltas": md, "flush_interval_ms": fi}));
+                    }
+                }
+                Err(p) => rep.violation("wiring: panic".to_string(), vh::panic_text(&p), json!({"wiring": true, "kind": kind, "n": n, "max_deltas": md, "flush_interval_ms": fi})),
+            }
+        });
+    }
     let coverage = json!({
         "evaluations": cases.len() as u64 + wb,
         "distinct_nontrivial": distinct.lock().unwrap().len(),
@@ -476,6 +591,8 @@ fn main() {
         "cases_in_which_a_fault_fired": faults_hit.load(Ordering::Relaxed),
         "crash_images_recovered": images.load(Ordering::Relaxed),
         "write_buffer_cases": wb,
+        "whole_wiring": {"cases": wiring_items.len(), "store_operations": wiring_ops.load(Ordering::Relaxed),
+            "rule": "a real ReplicatedShardedState with the delta sink of StreamingIntegration::start_workers (bridge task, persistence actor, StreamingPersistence over the logging store; compaction worker off) executes 1 .. 1000 commands (distinct SETs at counts around the buffer limits, overwrites, a SET/DEL/HSET/HDEL/APPEND mix, counters) under four write-buffer configurations (max_deltas 10 with flush interval 0, 10, 100, 100000 with a one-hour interval); after WorkerHandles::shutdown() a new node recovers through StreamingIntegration::recover: its replication state must equal the first node's, and TYPE of the keys must agree"},
         "write_buffer_overlapping_flushes": {"schedules_explored": wb_race_execs, "distinct_outcomes": wb_race_outcomes, "all_schedules_of_every_case_explored": wb_race_exhaustive,
             "programs": WB_PROGRAMS.iter().map(|(a, b)| format!("A=[{a}] B=[{b}]")).collect::<Vec<_>>(),
             "rule": "two tasks run their programs (P = push a fresh update, F = flush) on ONE WriteBuffer that already holds an update; the store yields before every operation, so every interleaving of the tasks' store calls is a schedule; fault plan = none, or the put with call index 0..3 (thorough 0..5) fails / leaves a truncated object; when both tasks are done the process keeps running: pending updates are flushed without faults; every update push() accepted must then be in some stored segment"},
